@@ -142,6 +142,28 @@ class Gen:
         raise KeyError(kind)
 
 
+TEMPLATES = {}
+
+
+def twin(pieces):
+    """the same capture recorded at other P1 times: every message of a timed type gets its seconds field moved (CRC redone);
+    all sizes and offsets stay the same, the extracted output has the same byte size but other content / index times"""
+    out, changed = [], False
+    for k, h in pieces:
+        b = bytearray.fromhex(h)
+        if (k.startswith('msg-') or k == 'wrapper') and len(b) >= 24 and b[:2] == b'.1':
+            ty, psize = struct.unpack_from('<H', b, 10)[0], struct.unpack_from('<I', b, 16)[0]
+            t = TEMPLATES.get(str(ty))
+            if t and t.get('timed') and psize == len(b) - 24 and psize >= t['sec_off'] + 8:
+                off = 24 + t['sec_off']
+                sec = struct.unpack_from('<I', b, off)[0]
+                struct.pack_into('<II', b, off, (sec % 1000000) + 490, 250000000)
+                struct.pack_into('<I', b, 4, zlib.crc32(bytes(b[8:])))
+                changed = True
+        out.append([k, bytes(b).hex()])
+    return out if changed else None
+
+
 MSG_KINDS = ['msg-timed', 'msg-invalidstamp', 'msg-untimed', 'msg-unknown', 'msg-type0', 'msg-empty', 'msg-reserved',
              'msg-shortpayload', 'msg-sync-in-payload', 'wrapper', 'msg-bigstamp']
 NOISE_KINDS = ['junk', 'junk-sync', 'junk-sync-run', 'rtcm', 'false-header-huge', 'false-header-large', 'false-header-pastend',
@@ -235,9 +257,14 @@ PRIOR_FILE = b'\x01junk.' + PRIOR_MSGS[0] + b'.1xx' + PRIOR_MSGS[1] + PRIOR_MSGS
 PRIOR_OUT = b''.join(PRIOR_MSGS)
 
 
-def over_spec(i, prior_idx):
+def over_spec(i, prior_idx, pieces=None):
     """what lies at the output path before the case's input is extracted into it"""
-    k = int(i) % 4
+    k = int(i) % 5
+    if k == 4:
+        tw = twin(pieces) if pieces else None
+        if tw is not None:      # an earlier extraction of the same capture at other P1 times: same output size, other content
+            return {'kind': 'extract', 'hex': file_of(tw).hex(), 'save_index': True}
+        k = 1
     if k == 0:
         return {'kind': 'files', 'out': PRIOR_OUT.hex(), 'idx': prior_idx}
     if k == 1:
@@ -258,7 +285,7 @@ def evaluate(ctx, model, cases, record=True):
     frames = [[] if l == '-' else [[int(a) for a in fr.split(':')] for fr in l.split(',')] for l in frames_l]
     # the two extra call variants (no return_counts / save_index=False) on every 2nd case and on all small batches
     prior_idx = vf.run_lines(model, ['I %s -' % hx(PRIOR_OUT)])[1][0]
-    overs = [over_spec(i, prior_idx) for i in ids]
+    overs = [over_spec(i, prior_idx, pc) for i, pc in zip(ids, cases)]
     impl = run_impl(ctx, 'run', [{'id': i, 'hex': f.hex(), 'frames': fr, 'variants': len(cases) < 40 or int(i) % 2 == 0, 'over': ov}
                                  for i, f, fr, ov in zip(ids, files, frames, overs)])
     if record:
@@ -455,6 +482,7 @@ def run(ctx):
         ctx.broken_proof('coqchk rejected the compiled development')
     model = build_model()
     templates = get_templates()
+    TEMPLATES.update(templates)
     corpus = load_corpus()
     cases = corpus + make_cases(ctx, templates)
     ctx.log('%d cases (%d from corpus)' % (len(cases), len(corpus)))
@@ -504,7 +532,7 @@ def run(ctx):
                             'fresh index of a copy of the output by fast_generate_index(force_reindex), FileIndex load of the written .p1i, second extraction into a '
                             'third path, extraction over an output location that already holds an earlier output (files put there, or a first extraction with / without index; second with / without index); '
                             'the p1_extract tool as a subprocess on a sample, and p1_extract.main() in-process in %d sequences of 2-3 captures lying in one directory (names .bin/.raw/.rtcm3/none, all written before the first run) '
-                            'extracted one after the other into the same -o/-p output (shapes: messages then message-free, messages then other messages, message-free then messages, same input twice ...). A case is distinct by the SHA-1 of the file.' % (len(ALL_KINDS), ', '.join(ALL_KINDS), 1500 if ctx.thorough else 150, 60 if ctx.thorough else 14))
+                            'extracted one after the other into the same -o/-p output (shapes: messages then message-free, messages then other messages, message-free then messages, same input twice, the same capture at other P1 times = equal output size but other index times ...); the .p1i bytes (times, types, offsets, marker) are compared with the model after every step. A case is distinct by the SHA-1 of the file.' % (len(ALL_KINDS), ', '.join(ALL_KINDS), 1500 if ctx.thorough else 150, 66 if ctx.thorough else 22))
     ctx.coverage['exhaustive'] = False
     ctx.trusted_base += ['Coq 8.16.1 kernel + vm_compute', 'extraction (ExtrOcamlBasic only), ocaml/conv.ml + c18_driver.ml',
                          'payload classes (cls().unpack / get_p1_time) are a parameter p1 of the model: the theorems hold for every p1; the correspondence run fills it with the values the library computes on the exact payload bytes (codec = C01)',
@@ -530,14 +558,23 @@ def app_sequences(ctx, model, cases):
     without = [i for i, x in enumerate(fr) if not x] or [None]
     if not withm:
         return
-    nseq = 60 if ctx.thorough else 14
-    shapes = ['AZ', 'AC', 'ZA', 'AZC', 'AA', 'ACZ', 'ZZ']
+    nseq = 66 if ctx.thorough else 22
+    # T = the capture A recorded at other P1 times (same sizes everywhere, so the output has the same byte size)
+    twins = {}
+    for i in withm:
+        tw = twin(pool[i])
+        if tw is not None:
+            twins[i] = len(files)
+            files.append(file_of(tw))
+            fr.append(fr[i])
+    shapes = ['AZ', 'AT', 'AC', 'ZA', 'TA', 'AZC', 'AA', 'ATZ', 'ACZ', 'ZZ', 'ATA']
     seqs = []
     for k in range(nseq):
         sh = shapes[k % len(shapes)]
-        a, c = r.choice(withm), r.choice(withm)
+        a = r.choice(sorted(twins)) if ('T' in sh and twins) else r.choice(withm)
+        c = r.choice(withm)
         z = r.choice(without)
-        seqs.append([{'A': a, 'C': c, 'Z': z}[ch] for ch in sh])
+        seqs.append([{'A': a, 'C': c, 'Z': z, 'T': twins.get(a, c)}[ch] for ch in sh])
     names = ['cap%d.bin', 'cap%d.raw', 'cap%d', 'cap%d.rtcm3']
     recs = []
     for si, sq in enumerate(seqs):
@@ -580,6 +617,7 @@ def replay(ctx, rec):
     case = rec.get('case', rec)
     gen_fe.generate(); gen_c09.generate()
     model = build_model()
+    TEMPLATES.update(get_templates())
     if 'sequence' in case:
         steps = []
         for x in case['sequence']:
